@@ -641,6 +641,10 @@ static void copy_ret_buffer(Obj *var) {
   Type *ty = var->ty;
   int gp = 0, fp = 0;
 
+  // An aggregate without members has no bytes to receive.
+  if (ty->size == 0)
+    return;
+
   if (has_flonum1(ty)) {
     assert(ty->size == 4 || 8 <= ty->size);
     if (ty->size == 4)
@@ -677,6 +681,10 @@ static void copy_ret_buffer(Obj *var) {
 static void copy_struct_reg(void) {
   Type *ty = current_fn->ty->return_ty;
   int gp = 0, fp = 0;
+
+  // An aggregate without members is returned in no register.
+  if (ty->size == 0)
+    return;
 
   println("  mov %%rax, %%rdi");
 
